@@ -282,10 +282,12 @@ theorem clsA_nonempty (top : List (TEdge α)) (s' : List Nat) (e : Nat)
 
 end step
 
-/-- **Removing an edge lowers the loop number by 0 or 1.** -/
-theorem loopNumber_erase (top : List (TEdge α)) (s : List Nat) (hs : s.Nodup) (hvalid : ∀ x ∈ s, x < top.length)
+/-- the counting identity behind the step: with `s' = s.erase e`, `new` the end points of `e` that `s'` does not touch and `A` the classes of
+`s'` that touch `e`: `loops s + #new + #A = loops s' + 2` -/
+theorem loopNumber_erase_eq (top : List (TEdge α)) (s : List Nat) (hs : s.Nodup) (hvalid : ∀ x ∈ s, x < top.length)
     (e : Nat) (he : e ∈ s) :
-    loopNumber top s = loopNumber top (s.erase e) ∨ loopNumber top s = loopNumber top (s.erase e) + 1 := by
+    loopNumber top s + (endSet top e \ verts top (s.erase e)).card + (clsA top (s.erase e) e).card
+      = loopNumber top (s.erase e) + 2 := by
   set s' := s.erase e with hs'def
   have hs' : s'.Nodup := hs.erase e
   have hne : e ∉ s' := hs.not_mem_erase
@@ -303,12 +305,10 @@ theorem loopNumber_erase (top : List (TEdge α)) (s : List Nat) (hs : s.Nodup) (
     rw [hs'def, List.length_erase_of_mem he]
     have : 0 < s.length := List.length_pos_of_mem he
     omega
-  -- classes
   have hC : (classes top s).card = (clsB top s' e).card + 1 := by
     rw [classes_step hmem hne, Finset.card_insert_of_notMem (merged_notMem_clsB hne)]
   have hC' : (classes top s').card = (clsA top s' e).card + (clsB top s' e).card := by
     rw [classes_split top s' e, Finset.card_union_of_disjoint (clsA_disjoint_clsB top s' e)]
-  -- vertices
   have hV : verts top s = verts top s' ∪ endSet top e := by
     unfold verts
     have : s.toFinset = insert e s'.toFinset := by
@@ -316,6 +316,12 @@ theorem loopNumber_erase (top : List (TEdge α)) (s : List Nat) (hs : s.Nodup) (
     rw [this, Finset.biUnion_insert, Finset.union_comm]
   have hVcard : (verts top s).card = (verts top s').card + (endSet top e \ verts top s').card := by
     rw [hV, Finset.union_comm, ← Finset.card_sdiff_add_card, Nat.add_comm]
+  omega
+
+/-- `1 ≤ #new + #A ≤ 2` -/
+theorem step_bounds (top : List (TEdge α)) (s' : List Nat) (e : Nat) :
+    1 ≤ (endSet top e \ verts top s').card + (clsA top s' e).card ∧
+      (endSet top e \ verts top s').card + (clsA top s' e).card ≤ 2 := by
   have hsplit := Finset.card_sdiff_add_card_inter (endSet top e) (verts top s')
   have hle2 := endSet_card_le top e
   have hpos : 0 < (endSet top e).card := by
@@ -327,6 +333,14 @@ theorem loopNumber_erase (top : List (TEdge α)) (s : List Nat) (hs : s.Nodup) (
     intro h
     have := clsA_nonempty top s' e (Finset.card_pos.mp (Nat.pos_of_ne_zero h))
     exact (Finset.card_pos.mpr this).ne'
+  omega
+
+/-- **Removing an edge lowers the loop number by 0 or 1.** -/
+theorem loopNumber_erase (top : List (TEdge α)) (s : List Nat) (hs : s.Nodup) (hvalid : ∀ x ∈ s, x < top.length)
+    (e : Nat) (he : e ∈ s) :
+    loopNumber top s = loopNumber top (s.erase e) ∨ loopNumber top s = loopNumber top (s.erase e) + 1 := by
+  have h1 := loopNumber_erase_eq top s hs hvalid e he
+  have h2 := step_bounds top (s.erase e) e
   omega
 
 /-- both cases occur: in the bubble with a tail `0-1, 0-1, 1-2` removing a bubble edge lowers the loop number, removing the tail does not -/
